@@ -26,6 +26,7 @@ def items(tier, seed):
     for n in (56, 112):
         out.append(("remainder-%d" % n, {"n": n}))
         out.append(("legacy-%d" % n, {"n": n}))
+        out.append(("sequence-%d" % n, {"n": n}))
         out.append(("encode-%d" % n, {"n": n}))
         out.append(("linear-%d" % n, {"n": n}))
         out.append(("parity-odd-%d" % n, {"n": n}))
@@ -66,7 +67,10 @@ def bits_differ(a, b):
 def syndrome_table(pm, n):
     """Run the real crc on n symbolic bits and read the column of every input bit off the affine form."""
     fr = frame(n, prefix="t%d" % n, case="upper")
-    (p,) = core.explore(lambda: pm.common.crc(fr.msg))
+    ps = core.explore(lambda: pm.common.crc(fr.msg))
+    if len(ps) != 1:
+        raise H.HarnessError("crc() forks on a fully symbolic frame (%d paths): the syndrome table cannot be read off" % len(ps))
+    (p,) = ps
     res = pad24(p.value)
     idx = {next(iter(b.atoms)): i for i, b in enumerate(fr.bits)}
     T = [0] * n
@@ -95,6 +99,21 @@ def run_item(item):
         # independent of hex letter case is part of the above (mixed-case frame, single spec)
         # vacuity twin: a frame with non-zero remainder exists
         item.sat_witness("nonzero-remainder", [spec != 0])
+
+    elif kind == "sequence":
+        # crc is a function of its arguments only: the same frame checked, encoded and checked again in one run gives
+        # remainder, parity, remainder (no state carried from one call to the next)
+        fr = frame(n)
+        item.declare(fr)
+        spec = core.bits_to_int(S.rem_bits(fr.bits))
+        spec_par = core.bits_to_int(S.parity_of_data_bits(fr.bits[:n - 24]))
+
+        def seq():
+            return (pm.common.crc(fr.msg), pm.common.crc(fr.msg, True), pm.common.crc(fr.msg), pm.common.crc(fr.msg, encode=True))
+        H.decide(item, "crc call sequence", seq, lambda c: H.real_driver("crc_sequence", c["msg"]),
+                 lambda m: {"msg": fr.concrete(m)},
+                 lambda k, v: k == "ret" and isinstance(v, (tuple, list)) and len(v) == 4 and
+                 H.zand(H.int_eq(v[0], spec), H.int_eq(v[1], spec_par), H.int_eq(v[2], spec), H.int_eq(v[3], spec_par)))
 
     elif kind == "legacy":
         # the bit-serial reference implementation kept alongside computes the same remainder / parity
